@@ -452,7 +452,7 @@ func ruleP18Width(p *Prog, r *Report) {
 	r.check(okLen, rule, "Cell:measure", p.pos(cell.Pos()), "cell width = rune count of the ANSI-stripped text", "a cell's width is not RuneCountInString(StripAllAnsiSequences(text)): styled and unstyled tables would differ in layout")
 	// longest cell tracks that len
 	okMax := false
-	eachInstr(cell, func(in ssa.Instruction) {
+	eachVInstrCtx(cell, func(in ssa.Instruction) {
 		if st, ok := in.(*ssa.Store); ok {
 			if ia, ok := st.Addr.(*ssa.IndexAddr); ok {
 				if _, fld := fieldLoad(ia.X); fld == "longestCell" {
